@@ -463,35 +463,172 @@ def _str_tuple(node) -> Optional[Set[str]]:
     return None
 
 
+def _lit_strs(node, lookup, depth: int = 0) -> Optional[Set[str]]:
+    """The set of names a literal sequence of strings holds: a tuple/list/set display, a sum of such, ``tuple(..)`` /
+    ``frozenset(..)`` of one, or a name that ``lookup`` resolves to the expression it was bound to (once)."""
+    if depth > 4 or node is None:
+        return None
+    got = _str_tuple(node)
+    if got is not None:
+        return got
+    if isinstance(node, ast.BinOp) and isinstance(node.op, (ast.Add, ast.BitOr)):
+        l, r = _lit_strs(node.left, lookup, depth + 1), _lit_strs(node.right, lookup, depth + 1)
+        return None if l is None or r is None else l | r
+    if isinstance(node, ast.Call) and isinstance(node.func, ast.Name) and node.func.id in ("tuple", "list", "set", "frozenset", "sorted") and len(node.args) == 1 and not node.keywords:
+        return _lit_strs(node.args[0], lookup, depth + 1)
+    if isinstance(node, (ast.Name, ast.Attribute)):
+        return _lit_strs(lookup(node), lookup, depth + 1)
+    return None
+
+
+def _class_lookup(cls_node, mod_tree):
+    """Resolver for names used in a class body / ``self.X`` reads: the single binding of the name in the class body,
+    else at module level."""
+    def find(body, name):
+        vals = []
+        for st in body:
+            tg = st.target if isinstance(st, ast.AnnAssign) else (st.targets[0] if isinstance(st, ast.Assign) and len(st.targets) == 1 else None)
+            if isinstance(tg, ast.Name) and tg.id == name and st.value is not None:
+                vals.append(st.value)
+        return vals[0] if len(vals) == 1 else None
+
+    def lookup(node):
+        if isinstance(node, ast.Attribute):
+            if isinstance(node.value, ast.Name) and node.value.id in ("self", "cls", cls_node.name):
+                return find(cls_node.body, node.attr)
+            return None
+        return find(cls_node.body, node.id) or find(mod_tree.body, node.id)
+
+    return lookup
+
+
+_IS_TYPE = ("is_type", "class_is_type")
+
+
 def _r17d(chk, repo) -> None:
-    """The keyword rule and the datatype rule never own the same token (two policies -> a fix each run)."""
+    """The keyword rule and the datatype rule never own the same token (two policies -> a fix each run).
+
+    Spellings seen through: the excluded types as a literal tuple/list, a sum of literals or a named class/module
+    constant; read in ``_eval`` directly or through a local, by ``is_type(*ts)`` / ``class_is_type(*ts)`` or
+    ``any(p.is_type(t) for t in ts)``; in CP05 the container test on ``context.segment`` directly or through a local,
+    held in a boolean local or as an early exit, its type names literal or a starred local/class tuple; the children
+    loop as a ``for``, a comprehension, or inside a nested helper called under the test."""
+    from ..idioms import conditions_at
+
     CP01 = "src/sqlfluff/rules/capitalisation/CP01.py"
     CP05 = "src/sqlfluff/rules/capitalisation/CP05.py"
     c1 = repo.cls(CP01, "Rule_CP01")
-    excl = None
-    for st in c1.body:
-        tg = st.target if isinstance(st, ast.AnnAssign) else (st.targets[0] if isinstance(st, ast.Assign) and len(st.targets) == 1 else None)
-        if isinstance(tg, ast.Name) and tg.id == "_exclude_parent_types" and st.value is not None:
-            excl = _str_tuple(st.value)
+    look1 = _class_lookup(c1, repo.mod(CP01).tree)
+    excl = _lit_strs(ast.Attribute(value=ast.Name(id="self"), attr="_exclude_parent_types"), look1)
     if excl is None:
         raise AnalysisError("R17d: Rule_CP01._exclude_parent_types is no longer a literal tuple of type names (anchor refactored)")
     e1 = repo.fn(CP01, "Rule_CP01._eval")
-    uses = [c for c in calls_in(e1) if last_attr(c) == "is_type" and any(isinstance(a, ast.Starred) and isinstance(a.value, ast.Attribute) and a.value.attr == "_exclude_parent_types" for a in c.args)]
+    cfg1 = cfg_of(e1)
+
+    def is_excl(e, at) -> bool:
+        if isinstance(e, ast.Attribute):
+            return e.attr == "_exclude_parent_types"
+        if isinstance(e, ast.Name):
+            os_ = origins(cfg1, e, at)
+            return bool(os_) and all(o.kind == "expr" and not o.path and isinstance(o.expr, ast.Attribute) and o.expr.attr == "_exclude_parent_types" for o in os_)
+        return False
+
+    uses = []
+    for c in calls_in(e1):
+        at = cfg1.stmt_of(c)
+        if last_attr(c) in _IS_TYPE and any(isinstance(a, ast.Starred) and is_excl(a.value, at) for a in c.args):
+            uses.append(c)
+        elif isinstance(c.func, ast.Name) and c.func.id == "any" and len(c.args) == 1 and isinstance(c.args[0], (ast.GeneratorExp, ast.ListComp)):
+            g = c.args[0]
+            if len(g.generators) == 1 and not g.generators[0].ifs and isinstance(g.generators[0].target, ast.Name) and is_excl(g.generators[0].iter, at):
+                v = g.generators[0].target.id
+                if isinstance(g.elt, ast.Call) and last_attr(g.elt) in _IS_TYPE and len(g.elt.args) == 1 and isinstance(g.elt.args[0], ast.Name) and g.elt.args[0].id == v:
+                    uses.append(c)
     if not uses:
         raise AnalysisError("R17d: Rule_CP01._eval no longer tests the parent against _exclude_parent_types (anchor refactored)")
+
+    c5 = repo.cls(CP05, "Rule_CP05")
+    look5 = _class_lookup(c5, repo.mod(CP05).tree)
     e5 = repo.fn(CP05, "Rule_CP05._eval")
+    cfg5 = cfg_of(e5)
+
+    def fn_of(node):
+        p = getattr(node, "_parent", None)
+        while p is not None and not isinstance(p, (ast.FunctionDef, ast.AsyncFunctionDef, ast.Lambda)):
+            p = getattr(p, "_parent", None)
+        return p
+
+    def stmt_in(node, fn):
+        """The statement of ``fn`` (directly, not of a nested def) that contains ``node``."""
+        p, last = node, None
+        while p is not None and p is not fn:
+            if isinstance(p, ast.stmt):
+                last = p
+                if fn_of(p) is fn:
+                    return p
+            p = getattr(p, "_parent", None)
+        return last
+
+    # the places where raw children of a segment are handed to _handle_segment
+    loops = []
+    for x in ast.walk(e5):
+        if isinstance(x, ast.For) and isinstance(x.iter, ast.Attribute) and x.iter.attr == "segments" and any(last_attr(c) == "_handle_segment" for c in calls_in(x)):
+            loops.append(x)
+        elif isinstance(x, (ast.GeneratorExp, ast.ListComp, ast.SetComp)) and any(isinstance(g.iter, ast.Attribute) and g.iter.attr == "segments" for g in x.generators) and any(last_attr(c) == "_handle_segment" for c in calls_in(x)):
+            loops.append(x)
+
+    def is_context_segment(e, cfg, at) -> bool:
+        if isinstance(e, ast.Attribute):
+            return e.attr == "segment"
+        if isinstance(e, ast.Name):
+            os_ = origins(cfg, e, at)
+            return bool(os_) and all(o.kind == "expr" and not o.path and isinstance(o.expr, ast.Attribute) and o.expr.attr == "segment" for o in os_)
+        return False
+
+    def type_args(call, cfg, at) -> Set[str]:
+        out: Set[str] = set()
+        for a in call.args:
+            if isinstance(a, ast.Constant) and isinstance(a.value, str):
+                out.add(a.value)
+                continue
+            got = None
+            if isinstance(a, ast.Starred):
+                v = a.value
+                if isinstance(v, ast.Name):
+                    os_ = origins(cfg, v, at)
+                    if len(os_) == 1 and os_[0].kind == "expr" and not os_[0].path:
+                        got = _lit_strs(os_[0].expr, look5)
+                    elif len(os_) == 1 and os_[0].kind == "unknown":
+                        got = _lit_strs(v, look5)
+                else:
+                    got = _lit_strs(v, look5)
+            if got is None:
+                raise AnalysisError("R17d: CP05's container test is no longer a list of literal type names")
+            out |= got
+        return out
+
+    def guards_at(node, depth=0):
+        """is_type tests on the crawled segment known to hold where ``node`` runs (through callers of a nested helper)."""
+        fn = fn_of(node)
+        cfg = cfg5 if fn is e5 else cfg_of(fn)
+        st = stmt_in(node, fn)
+        out = []
+        for e, pol in conditions_at(cfg, st):
+            if pol and isinstance(e, ast.Call) and last_attr(e) in _IS_TYPE and isinstance(e.func, ast.Attribute) and is_context_segment(e.func.value, cfg, cfg.stmt_of(e) or st):
+                out.append(type_args(e, cfg, cfg.stmt_of(e) or st))
+        if fn is not e5 and isinstance(fn, ast.FunctionDef) and depth < 3:
+            for c in calls_in(e5):
+                if isinstance(c.func, ast.Name) and c.func.id == fn.name and fn_of(c) is not fn:
+                    out += guards_at(c, depth + 1)
+        return out
+
     containers: Set[str] = set()
     n = 0
-    for iff in [x for x in walk_local(e5) if isinstance(x, ast.If)]:
-        t = iff.test
-        if not (isinstance(t, ast.Call) and last_attr(t) == "is_type" and isinstance(t.func, ast.Attribute) and isinstance(t.func.value, ast.Attribute) and t.func.value.attr == "segment"):
+    for l in loops:
+        gs = guards_at(l)
+        if not gs:
             continue
-        loops = [l for b in iff.body for l in ast.walk(b) if isinstance(l, ast.For) and isinstance(l.iter, ast.Attribute) and l.iter.attr == "segments"]
-        if not any(last_attr(c) == "_handle_segment" for l in loops for c in calls_in(l)):
-            continue
-        ts = {a.value for a in t.args if isinstance(a, ast.Constant) and isinstance(a.value, str)}
-        if len(ts) != len(t.args):
-            raise AnalysisError("R17d: CP05's container test is no longer a list of literal type names")
+        ts = set().union(*gs)
         containers |= ts
         n += 1
     chk.count("R17d.cp05_container_loops", n)
@@ -689,6 +826,98 @@ VARIANTS: List[Variant] = [
         '            "primitive_type", "datetime_type_identifier", "data_type"\n        ):\n            for seg in',
         '            "primitive_type", "datetime_type_identifier", "data_type", "array_type"\n        ):\n            for seg in',
         "R17d", "Rule_CP01", "the other side of the same pair: CP05 starts owning children CP01 still owns",
+    ),
+    # behaviour-preserving refactors: must stay quiet (R17d sweep)
+    Variant(
+        "quiet-cp01-excluded-parents-from-a-named-constant", "src/sqlfluff/rules/capitalisation/CP01.py",
+        '    _exclude_parent_types: tuple[str, ...] = (\n        "data_type",\n        "datetime_type_identifier",\n        "primitive_type",\n    )\n',
+        '    _DATATYPE_CONTAINERS = ("data_type", "datetime_type_identifier", "primitive_type")\n    _exclude_parent_types: tuple[str, ...] = _DATATYPE_CONTAINERS\n',
+        "QUIET", None, "R17d: the tuple through a named class-level constant",
+    ),
+    Variant(
+        "quiet-cp01-excluded-parents-as-a-sum-of-lists", "src/sqlfluff/rules/capitalisation/CP01.py",
+        '    _exclude_parent_types: tuple[str, ...] = (\n        "data_type",\n        "datetime_type_identifier",\n        "primitive_type",\n    )\n',
+        '    _exclude_parent_types = ("primitive_type", "data_type") + (\n        "datetime_type_identifier",\n    )\n',
+        "QUIET", None, "R17d: same three names, reordered, as a sum of two tuples, no annotation",
+    ),
+    Variant(
+        "quiet-cp01-excluded-parents-through-a-local", "src/sqlfluff/rules/capitalisation/CP01.py",
+        "        if context.segment.is_type(*self._exclude_types) or parent.is_type(\n            *self._exclude_parent_types\n        ):\n            return [LintResult(memory=context.memory)]\n",
+        "        skipped_parents = self._exclude_parent_types\n        if context.segment.is_type(*self._exclude_types):\n            return [LintResult(memory=context.memory)]\n        parent_is_skipped = parent.is_type(*skipped_parents)\n        if parent_is_skipped:\n            return [LintResult(memory=context.memory)]\n",
+        "QUIET", None, "R17d: the tuple through a local, the `or` as two early returns, the test in a boolean local",
+    ),
+    Variant(
+        "quiet-cp01-excluded-parents-tested-one-by-one", "src/sqlfluff/rules/capitalisation/CP01.py",
+        "        if context.segment.is_type(*self._exclude_types) or parent.is_type(\n            *self._exclude_parent_types\n        ):\n",
+        "        if context.segment.is_type(*self._exclude_types) or any(\n            parent.is_type(t) for t in self._exclude_parent_types\n        ):\n",
+        "QUIET", None, "R17d: is_type(*ts) is any(is_type(t) for t in ts)",
+    ),
+    Variant(
+        "quiet-cp01-excluded-parents-class-is-type", "src/sqlfluff/rules/capitalisation/CP01.py",
+        "        if context.segment.is_type(*self._exclude_types) or parent.is_type(\n            *self._exclude_parent_types\n        ):\n",
+        "        if context.segment.is_type(*self._exclude_types) or parent.class_is_type(\n            *self._exclude_parent_types\n        ):\n",
+        "QUIET", None, "R17d: is_type is defined as class_is_type",
+    ),
+    Variant(
+        "quiet-cp05-container-segment-through-a-local", "src/sqlfluff/rules/capitalisation/CP05.py",
+        '        if context.segment.is_type(\n            "primitive_type", "datetime_type_identifier", "data_type"\n        ):\n            for seg in context.segment.segments:\n',
+        '        container = context.segment\n        is_container = container.is_type(\n            "primitive_type", "datetime_type_identifier", "data_type"\n        )\n        if is_container:\n            for seg in container.segments:\n',
+        "QUIET", None, "R17d: the segment and the test through locals",
+    ),
+    Variant(
+        "quiet-cp05-container-types-in-a-local-tuple", "src/sqlfluff/rules/capitalisation/CP05.py",
+        '        if context.segment.is_type(\n            "primitive_type", "datetime_type_identifier", "data_type"\n        ):\n            for seg in context.segment.segments:\n',
+        '        container_types = ("primitive_type", "datetime_type_identifier", "data_type")\n        if context.segment.is_type(*container_types):\n            for child in context.segment.segments:\n                seg = child\n',
+        "QUIET", None, "R17d: the type names in a local tuple, the loop variable renamed",
+    ),
+    Variant(
+        "quiet-cp05-children-recased-in-a-comprehension", "src/sqlfluff/rules/capitalisation/CP05.py",
+        '            for seg in context.segment.segments:\n                # We don\'t want to edit symbols, quoted things, identifiers\n                # or comments if they appear.\n                if seg.is_type(\n                    "symbol", "identifier", "quoted_literal", "comment"\n                ) or not seg.is_type("raw"):\n                    continue\n                res = self._handle_segment(seg, context)\n                if res:\n                    results.append(res)\n',
+        '            handled = [\n                self._handle_segment(seg, context)\n                for seg in context.segment.segments\n                if seg.is_type("raw")\n                and not seg.is_type("symbol", "identifier", "quoted_literal", "comment")\n            ]\n            results.extend(res for res in handled if res)\n',
+        "QUIET", None, "R17d: the loop as a comprehension (same order of calls, same filter)",
+    ),
+    Variant(
+        "quiet-cp05-children-recased-by-a-method", "src/sqlfluff/rules/capitalisation/CP05.py",
+        '            for seg in context.segment.segments:\n                # We don\'t want to edit symbols, quoted things, identifiers\n                # or comments if they appear.\n                if seg.is_type(\n                    "symbol", "identifier", "quoted_literal", "comment"\n                ) or not seg.is_type("raw"):\n                    continue\n                res = self._handle_segment(seg, context)\n                if res:\n                    results.append(res)\n',
+        '            def _recase_children(container):\n                for seg in container.segments:\n                    if seg.is_type(\n                        "symbol", "identifier", "quoted_literal", "comment"\n                    ) or not seg.is_type("raw"):\n                        continue\n                    res = self._handle_segment(seg, context)\n                    if res:\n                        results.append(res)\n\n            _recase_children(context.segment)\n',
+        "QUIET", None, "R17d: the loop in a nested helper called under the same test",
+    ),
+    # breaking twins of the spellings above
+    Variant(
+        "cp01-named-constant-misses-datetime", "src/sqlfluff/rules/capitalisation/CP01.py",
+        '    _exclude_parent_types: tuple[str, ...] = (\n        "data_type",\n        "datetime_type_identifier",\n        "primitive_type",\n    )\n',
+        '    _DATATYPE_CONTAINERS = ("data_type", "primitive_type")\n    _exclude_parent_types: tuple[str, ...] = _DATATYPE_CONTAINERS\n',
+        "R17d", "Rule_CP01", "named-constant twin of seeded C17-7",
+    ),
+    Variant(
+        "cp01-sum-of-tuples-misses-primitive", "src/sqlfluff/rules/capitalisation/CP01.py",
+        '    _exclude_parent_types: tuple[str, ...] = (\n        "data_type",\n        "datetime_type_identifier",\n        "primitive_type",\n    )\n',
+        '    _exclude_parent_types = ("data_type",) + (\n        "datetime_type_identifier",\n    )\n',
+        "R17d", "Rule_CP01", "sum twin",
+    ),
+    Variant(
+        "cp05-local-tuple-gains-a-container", "src/sqlfluff/rules/capitalisation/CP05.py",
+        '        if context.segment.is_type(\n            "primitive_type", "datetime_type_identifier", "data_type"\n        ):\n            for seg in context.segment.segments:\n',
+        '        container_types = ("primitive_type", "datetime_type_identifier", "data_type", "array_type")\n        if context.segment.is_type(*container_types):\n            for seg in context.segment.segments:\n',
+        "R17d", "Rule_CP01", "local-tuple twin",
+    ),
+    Variant(
+        "cp05-boolean-local-gains-a-container", "src/sqlfluff/rules/capitalisation/CP05.py",
+        '        if context.segment.is_type(\n            "primitive_type", "datetime_type_identifier", "data_type"\n        ):\n            for seg in context.segment.segments:\n',
+        '        container = context.segment\n        is_container = container.is_type(\n            "primitive_type", "datetime_type_identifier", "data_type", "struct_type"\n        )\n        if is_container:\n            for seg in container.segments:\n',
+        "R17d", "Rule_CP01", "boolean-local twin",
+    ),
+    Variant(
+        "cp05-comprehension-under-a-wider-test", "src/sqlfluff/rules/capitalisation/CP05.py",
+        '        if context.segment.is_type(\n            "primitive_type", "datetime_type_identifier", "data_type"\n        ):\n            for seg in context.segment.segments:\n                # We don\'t want to edit symbols, quoted things, identifiers\n                # or comments if they appear.\n                if seg.is_type(\n                    "symbol", "identifier", "quoted_literal", "comment"\n                ) or not seg.is_type("raw"):\n                    continue\n                res = self._handle_segment(seg, context)\n                if res:\n                    results.append(res)\n',
+        '        if context.segment.is_type(\n            "primitive_type", "datetime_type_identifier", "data_type", "array_type"\n        ):\n            handled = [\n                self._handle_segment(seg, context)\n                for seg in context.segment.segments\n                if seg.is_type("raw")\n                and not seg.is_type("symbol", "identifier", "quoted_literal", "comment")\n            ]\n            results.extend(res for res in handled if res)\n',
+        "R17d", "Rule_CP01", "comprehension twin",
+    ),
+    Variant(
+        "cp05-nested-helper-called-under-a-wider-test", "src/sqlfluff/rules/capitalisation/CP05.py",
+        '        if context.segment.is_type(\n            "primitive_type", "datetime_type_identifier", "data_type"\n        ):\n            for seg in context.segment.segments:\n                # We don\'t want to edit symbols, quoted things, identifiers\n                # or comments if they appear.\n                if seg.is_type(\n                    "symbol", "identifier", "quoted_literal", "comment"\n                ) or not seg.is_type("raw"):\n                    continue\n                res = self._handle_segment(seg, context)\n                if res:\n                    results.append(res)\n',
+        '        def _recase_children(container):\n            for seg in container.segments:\n                if seg.is_type(\n                    "symbol", "identifier", "quoted_literal", "comment"\n                ) or not seg.is_type("raw"):\n                    continue\n                res = self._handle_segment(seg, context)\n                if res:\n                    results.append(res)\n\n        if context.segment.is_type(\n            "primitive_type", "datetime_type_identifier", "data_type", "array_type"\n        ):\n            _recase_children(context.segment)\n',
+        "R17d", "Rule_CP01", "nested-helper twin: the helper defined outside the test and called under a wider one",
     ),
     Variant(
         "lt05-comment-scan-bounded-by-the-source-line", "src/sqlfluff/rules/layout/LT05.py",
